@@ -8146,6 +8146,11 @@ func (c *BytecodeCompiler) emitChar(char value.Char, location *position.Location
 
 func (c *BytecodeCompiler) emitFloat(f value.Float, location *position.Location) {
 	line := location.StartPos.Line
+	if f == 0 && math.Signbit(float64(f)) {
+		// -0.0 is not FLOAT_0
+		c.emitLoadValue(f.ToValue(), location)
+		return
+	}
 	switch f {
 	case 0:
 		c.emit(line, bytecode.FLOAT_0)
